@@ -166,6 +166,13 @@ func c34Scenarios() []*c34Scenario {
 			ops:  c34Cat([]c34Op{c34Upd("v4a", "v4b"), c34OpRErrV}, c34SCOps("v4a", "v4b"), []c34Op{c34OpTimerV}),
 			depthQ: 8, depthT: 14, minState: 50,
 		},
+		{ // IDLE after a failed pass + recovery: v4a and v4b failed (TF), v4a reconnected, was READY, lost its transport.
+			// A pass started by ExitIdle / a pick must judge failures of THIS pass only.
+			name: "two-v4-idle-after-failed-pass-and-recovery",
+			pre: []string{"update[v4a,v4b]", "v4a.connecting", "v4a.tf", "v4b.connecting", "v4b.tf", "v4a.idle", "v4a.connecting", "v4a.ready", "v4a.idle"},
+			ops: c34Cat([]c34Op{c34OpPickV, c34OpExitIdleV}, c34SCOps("v4a", "v4b"), []c34Op{c34OpTimerV, c34Upd("v4a", "v4b")}),
+			depthQ: 7, depthT: 12, minState: 50,
+		},
 		{ // stale (in-flight) updates of subchannels the balancer has already shut down
 			name: "stale-updates",
 			ops: c34Cat([]c34Op{c34Upd("v4a"), c34Upd("v4b"), c34Upd("v4a", "v4b")},
